@@ -33,7 +33,7 @@ var (
 	names   = []string{"v1", "v11", "v2", "1.0", "a/b", "a", "V1", "v1.1"}
 	tails   = []string{"", "/", "/x", "/x/y", "x", "/v1/x", "//", "/\xff", "/v2/"}
 	mtypes  = []string{"application/json", "text/html", "*/*", "application/vnd.x+json", "a/b"}
-	hostile = []string{"a/b; version=\"v1,5\"", "a/b; version=v1, c/d", "", ";", "a/b;", "a/b; version", "a/b; version=", "\xff", "a/b; version=\"v1", "a/b;;version=v1", "version=v1", "a/b; q=0.9, c/d; version=v1"}
+	hostile = []string{"a/b; version=\"", "a/b; version=\";\"", "a/b; charset=\"; version=v1", "a/b; v=\"", "a/b; api=\"\"", "\"", "a/b; version=\"\\", "a/b; version=\"v1,5\"", "a/b; version=v1, c/d", "", ";", "a/b;", "a/b; version", "a/b; version=", "\xff", "a/b; version=\"v1", "a/b;;version=v1", "version=v1", "a/b; q=0.9, c/d; version=v1"}
 )
 
 func decorate(t *rapid.T, v string) string {
@@ -112,11 +112,14 @@ func gen(t *rapid.T) Case {
 				// the sibling's key in the same header, with a value of its own
 				a += "; " + sibKey + "=" + rapid.SampledFrom(append(append([]string{}, c.Sib.Versions...), "v9", "v1", "1.0")).Draw(t, "sibVal")
 			}
-			switch rapid.IntRange(0, 7).Draw(t, "comma") {
+			switch rapid.IntRange(0, 9).Draw(t, "comma") {
 			case 0:
 				a += ", text/html" // a list of media ranges is not one media type
 			case 1:
 				a += `; note="a,b"` // a comma inside a quoted value is
+			case 2:
+				// flawless up to here, then something that spoils the whole header (or, for the empty tail, does not)
+				a += rapid.SampledFrom([]string{"; charset", ";;", `; q="0.8`, "; " + k + "=v9", "; " + k + "*=utf-8''v2", ";", `; x="`}).Draw(t, "tail")
 			}
 		case 5:
 			a = rapid.SampledFrom(mtypes).Draw(t, "plain")
@@ -315,7 +318,7 @@ func (m *matchers) accept(acc string, nontrivp *bool, classesp *[]string) error 
 }
 
 var stats = rig.NewStats("C15",
-	"rapid draws a version list (1-4 of v1 v11 v2 1.0 a/b a V1 v1.1, each with or without leading and trailing '/'), a parameter name (or none), an Accept key, 1-6 paths ('/'+listed version+tail, other versions, near misses: no leading slash, no trailing slash, version recurring later, other letter case, proper prefix of a version; '' '*' '/'; arbitrary bytes) and 1-6 Accept headers (media type grammar with the key present / upper-case / absent, quoted values, junk, arbitrary strings). In a third of the cases a sibling pair of matchers (other version list, Accept key and parameter name) is asked about every path / header just before the subject and judged the same way; headers then carry both keys with different values. Oracle: path matcher accepts iff the path begins with '/'+version+'/' for the first listed such version, then URL.Path loses exactly '/'+version and the parameter holds '/'+version; header matcher accepts iff mime.ParseMediaType succeeds and params[key] is a listed version; on rejection path and parameters (pre-populated) are byte-identical. Non-trivial: a path that starts with, or is a proper prefix of, '/'+a listed version, or an Accept header that parses; distinct by hash of the case",
+	"rapid draws a version list (1-4 of v1 v11 v2 1.0 a/b a V1 v1.1, each with or without leading and trailing '/'), a parameter name (or none), an Accept key, 1-6 paths ('/'+listed version+tail, other versions, near misses: no leading slash, no trailing slash, version recurring later, other letter case, proper prefix of a version; '' '*' '/'; arbitrary bytes) and 1-6 Accept headers (media type grammar with the key present / upper-case / absent, quoted values, tails that spoil an otherwise flawless header - a parameter without value, a duplicate of the key, an unterminated quote, a name* form -, lone quotes, junk, arbitrary strings). In a third of the cases a sibling pair of matchers (other version list, Accept key and parameter name) is asked about every path / header just before the subject and judged the same way; headers then carry both keys with different values. Oracle: path matcher accepts iff the path begins with '/'+version+'/' for the first listed such version, then URL.Path loses exactly '/'+version and the parameter holds '/'+version; header matcher accepts iff mime.ParseMediaType succeeds and params[key] is a listed version; on rejection path and parameters (pre-populated) are byte-identical. Non-trivial: a path that starts with, or is a proper prefix of, '/'+a listed version, or an Accept header that parses; distinct by hash of the case",
 	"mime.ParseMediaType (standard library) is the trusted reference for Accept parsing",
 	"the version '/' (empty name) and empty version lists are outside the stated domain")
 
